@@ -1,13 +1,15 @@
 import Cirbo.Proofs.Passes
+import Cirbo.Proofs.RrgIdem
 /-!
 # C18 — Simplification passes achieve their stated effect; pipelines equal sequencing
 
 -- OBLIGATION: c18_rrg_exactly_reachable
--- OBLIGATION: c18_pipeline_is_sequencing_partial
--- OBLIGATION: c18_pipe_operator_is_sequencing_partial
--- OBLIGATION: c18_cleanup_is_sequencing_partial
+-- OBLIGATION: c18_rrg_idempotent
+-- OBLIGATION: c18_pipeline_is_sequencing
+-- OBLIGATION: c18_pipe_operator_is_sequencing
+-- OBLIGATION: c18_cleanup_is_sequencing
 -- OBLIGATION: c18_reduction_only_drops_repeated_rrg
--- PARTIAL: the pipeline theorems are proved from the hypothesis RrgIdem (applying RemoveRedundantGates twice equals applying it once, as a statement about the model); that hypothesis itself, and the postconditions of MergeDuplicateGates (no two gates with the same signature), MergeEquivalentGates (no two non-input gates with the same truth table) and MergeUnaryOperators (no NOT of NOT / no buffer as operand or output) are decided on every run by the search over the real passes plus the one-to-one model correspondence; their theorems are not proved yet.
+-- PARTIAL: the postconditions of MergeDuplicateGates (no two gates with the same signature), MergeEquivalentGates (no two non-input gates with the same truth table) and MergeUnaryOperators (no NOT of NOT / no buffer as operand or output) are decided on every run by the search over the real passes plus the one-to-one model correspondence; their theorems are not proved yet. Idempotence and the pipeline theorems are stated for well-formed circuits (the C02 invariant plus right arities), which is what every public constructor produces.
 -/
 namespace Cirbo
 
@@ -27,24 +29,31 @@ theorem c18_reduction_only_drops_repeated_rrg (t p : Tr) (r : List Tr) :
       if sameIdem t p then reduceIdem (some p) r else t :: reduceIdem (some t) r := by
   simp [reduceIdem]
 
-/-- applying a list of passes = applying the constituent passes one after another (each merging
-pass followed by its implied `RemoveRedundantGates()`), given idempotence of the latter -/
-theorem c18_pipeline_is_sequencing_partial (H : RrgIdem) (c : Circuit) (ts : List Tr) :
+/-- applying `RemoveRedundantGates` twice equals applying it once: the second application returns
+its argument unchanged (same gates in the same order, same inputs, outputs and users index) -/
+theorem c18_rrg_idempotent {allow : Bool} {c c1 : Circuit} (hw : WFS c) (h : rrg allow c = .ok c1) :
+    rrg allow c1 = .ok c1 :=
+  rrg_idem hw h
+
+/-- applying a list of passes (arbitrarily nested compositions, repeated idempotent passes) =
+applying the constituent passes one after another, each merging pass followed by its implied
+`RemoveRedundantGates()` -/
+theorem c18_pipeline_is_sequencing {c : Circuit} (hw : WFS c) (har : ArOK c) (ts : List Tr) :
     applyTransformers c ts = runSeq (.ok c) (linearize.linearizeList ts) :=
-  applyTransformers_eq_seq H c ts
+  applyTransformers_eq_seq_wf hw har ts
 
 /-- `t1 | t2` runs `t1`, then `t2` -/
-theorem c18_pipe_operator_is_sequencing_partial (H : RrgIdem) (a b : Tr) (c : Circuit) :
+theorem c18_pipe_operator_is_sequencing {c : Circuit} (hw : WFS c) (har : ArOK c) (a b : Tr) :
     applyTransformers c [a.or b] = runSeq (runSeq (.ok c) (linearize a)) (linearize b) := by
-  rw [applyTransformers_eq_seq H]
+  rw [applyTransformers_eq_seq_wf hw har]
   simp only [linearize.linearizeList, List.append_nil]
-  exact or_eq_seq H a b _
+  exact or_eq_seq_wf a b _ (by intro c0 h0; cases h0; exact ⟨hw, har⟩)
 
 /-- `cleanup` = RRG, MUO, RRG, MDG, RRG (then MEG, RRG when heavy) -/
-theorem c18_cleanup_is_sequencing_partial (H : RrgIdem) (c : Circuit) (heavy : Bool) :
+theorem c18_cleanup_is_sequencing {c : Circuit} (hw : WFS c) (har : ArOK c) (heavy : Bool) :
     cleanup c heavy = runSeq (.ok c)
       ([.rrg false, .muo, .rrg false, .mdg, .rrg false] ++ (if heavy then [.meg, .rrg false] else [])) :=
-  cleanup_eq_seq H c heavy
+  cleanup_eq_seq_wf hw har heavy
 
 /-! Non-vacuity -/
 open GateType in
@@ -55,9 +64,10 @@ example : ((c18Example >>= rrg false).toOption.map fun c => c.labels) = some ["b
 example : ((c18Example >>= rrg false >>= rrg false).toOption.map fun c => c.labels) = some ["b", "a", "x", "u"] := by decide
 
 #print axioms c18_rrg_exactly_reachable
-#print axioms c18_pipeline_is_sequencing_partial
-#print axioms c18_pipe_operator_is_sequencing_partial
-#print axioms c18_cleanup_is_sequencing_partial
+#print axioms c18_rrg_idempotent
+#print axioms c18_pipeline_is_sequencing
+#print axioms c18_pipe_operator_is_sequencing
+#print axioms c18_cleanup_is_sequencing
 #print axioms c18_reduction_only_drops_repeated_rrg
 
 end Cirbo
